@@ -108,7 +108,9 @@ def load_findings(prop: str):
     return {e["key"]: e for e in data.get("findings", []) if e.get("property") == prop}
 
 
-def _run_one(mod, prop, seed, idx, tier, timeout=CASE_TIMEOUT_S):
+def _run_one(mod, prop, seed, idx, tier, timeout=None):
+    if timeout is None:
+        timeout = getattr(mod, "CASE_TIMEOUT_S", CASE_TIMEOUT_S)
     rng = case_rng(prop, seed, idx)
     signal.signal(signal.SIGALRM, _alarm)
     signal.alarm(timeout)
